@@ -135,6 +135,13 @@ def judge(K, M, vals, vecs, idx_active, fails, ctx, exact=None, sort=True, num=N
             sig = SIG_SORT if np.all(np.abs(dv[dv < 0]) < 0.1) else None
             fails.append(fail('frequencies not in ascending order' + (' (neighbours closer than 0.1 rad/s: explained by sorting on values rounded to 0.1)' if sig else ''),
                               sig=sig, vals=vals[:kk], **ctx))
+    if not sort and exact is not None and len(vals):
+        # unsorted output: whatever the order, the lowest requested frequencies must be among the returned values
+        ex = np.sort(exact)
+        kk = min(len(ex), num or len(ex), len(vals))
+        missing = [float(e) for e in ex[:kk] if np.abs(vals - e).min() > 1e-6 * ex[:kk].max()]
+        if missing:
+            fails.append(fail('the lowest frequencies are not among the returned (unsorted) values', sig=None, missing=missing[:5], got=np.sort(vals)[:8], **ctx))
     if sort and exact is not None and len(vals):
         ex = np.sort(exact)
         kk = min(len(vals), len(ex), num or len(vals))
